@@ -41,7 +41,9 @@ REG_HEADER = ("From Coq Require Import ZArith List String.\n"
 RULE = ("history = 1-4 stations (EVSE / DeadbandEVSE / FiniteRatesEVSE), back-to-back sessions per station with "
         "Battery or Linear2StageBattery (continuous/stepwise, with and without noise), ties of plugins/unplugs at one "
         "timestamp, RecomputeEvents before/between/after the sessions, untyped base Events, max_recompute in {None,1,2,3}, "
-        "store_schedule_history on/off, scripted / UncontrolledCharging / sorted schedulers, shuffled event insertion "
+        "store_schedule_history on/off, scripted / UncontrolledCharging / sorted schedulers, the interruption an Exception, "
+        "a BaseException subclass or KeyboardInterrupt, the loaded simulator given a fresh scheduler / the same scheduler "
+        "object / one registered with another simulator, shuffled event insertion "
         "order; one case per (history, scheduler call k at which the scheduler raises); the corpus witnesses first; a "
         "small share of histories belongs to the known-finding class (zero-stay session); "
         "non-trivial = distinct (history, k)")
@@ -64,6 +66,25 @@ KNOWN_ZERO_STAY = "known:zero-stay-session"
 
 class SchedulerCrash(Exception):
     pass
+
+
+class SchedulerAbort(BaseException):
+    """an interruption outside the Exception hierarchy (like a solver time-out signal)"""
+
+
+INTERRUPTS = (SchedulerCrash, SchedulerAbort, KeyboardInterrupt)
+EXC_KINDS = [SchedulerCrash, SchedulerAbort, KeyboardInterrupt]
+
+
+def exc_kind(h, k):
+    """which exception class the scheduler raises at call k of history h (deterministic)"""
+    return (h["script_seed"] + 2 * k) % 3
+
+
+def attach_mode(h, k):
+    """which scheduler object is given to the LOADED simulator: 0 a fresh instance, 1 the very object that
+    drove the interrupted run, 2 an instance that is already registered with another simulator"""
+    return (h["script_seed"] // 3 + k) % 3
 
 
 # ---------------------------------------------------------------------------------------------
@@ -193,26 +214,40 @@ def effective_mr(h):
     return h["mr"] if h["mr"] is not None else 1
 
 
-class Crashing:
-    """wraps a scheduler; its k-th call (0-based) raises; logs the iterations of successful calls"""
+_CRASHING = None
 
-    def __init__(self, inner, k, calls):
-        self.inner, self.k, self.n, self.calls = inner, k, 0, calls
-        self.max_recompute = inner.max_recompute
-        self.interface = None
 
-    def register_interface(self, interface):
-        self.interface = interface
-        self.inner.register_interface(interface)
+def crashing_class():
+    """Crashing(inner, k, calls): a BaseAlgorithm that wraps a scheduler; its k-th call (0-based) raises an
+    exception of the given kind; logs the iterations of successful calls"""
+    global _CRASHING
+    if _CRASHING is None:
+        from acnportal.algorithms import BaseAlgorithm
 
-    def run(self):
-        n = self.n
-        self.n += 1
-        if self.k is not None and n == self.k:
-            raise SchedulerCrash("scheduler raised at call %d" % n)
-        r = self.inner.run()
-        self.calls.append(int(self.interface.current_time))
-        return r
+        class Crashing(BaseAlgorithm):
+            def __init__(self, inner, k, calls, kind=0):
+                super().__init__()
+                self.inner, self.k, self.n, self.calls, self.kind = inner, k, 0, calls, kind
+                self.max_recompute = inner.max_recompute
+
+            def register_interface(self, interface):
+                super().register_interface(interface)
+                self.inner.register_interface(interface)
+
+            def run(self):
+                n = self.n
+                self.n += 1
+                if self.k is not None and n == self.k:
+                    raise EXC_KINDS[self.kind]("scheduler raised at call %d" % n)
+                r = self.inner.run()
+                self.calls.append(int(self.interface.current_time))
+                return r
+        _CRASHING = Crashing
+    return _CRASHING
+
+
+def Crashing(inner, k, calls, kind=0):
+    return crashing_class()(inner, k, calls, kind)
 
 
 def make_evse(i, st):
@@ -433,24 +468,27 @@ def run_chain_impl(h, ref_ncalls):
     via_json = [r.random() < 0.5 for _ in ks]
     np.random.seed(h["np_seed"])
     calls = []
-    wrap = Crashing(make_scheduler(h), ks[0], calls)
+    wrap = Crashing(make_scheduler(h), ks[0], calls, r.randint(0, 2))
     sim = build(h, wrap)
     try:
         for i in range(len(ks) + 1):
             try:
                 sim.run()
                 break
-            except SchedulerCrash:
+            except INTERRUPTS:
                 pass
             nxt = ks[i + 1] if i + 1 < len(ks) else None
             if via_json[i]:
                 st = np.random.get_state()
                 sim = Simulator.from_json(sim.to_json())
                 np.random.set_state(st)
-                wrap = Crashing(make_scheduler(h), nxt, calls)
+                if r.random() < 0.5:
+                    wrap.k, wrap.n, wrap.kind = nxt, 0, r.randint(0, 2)      # the very same scheduler object
+                else:
+                    wrap = Crashing(make_scheduler(h), nxt, calls, r.randint(0, 2))
                 sim.update_scheduler(wrap)
             else:
-                wrap.k, wrap.n = nxt, 0
+                wrap.k, wrap.n, wrap.kind = nxt, 0, r.randint(0, 2)
         if sim.event_queue._queue and not sim._resolve:
             return [ks, via_json], "run() returned with events pending"
         return [ks, via_json], numeric(sim)
@@ -486,15 +524,16 @@ def run_history(h):
     for k in range(ncalls):
         np.random.seed(h["np_seed"])
         calls = []
-        sim = build(h, Crashing(make_scheduler(h), k, calls))
+        wrap = Crashing(make_scheduler(h), k, calls, exc_kind(h, k))
+        sim = build(h, wrap)
         try:
             sim.run()
             recs.append(dict(k=k, problem="the scheduler's call %d was never reached" % k))
             continue
-        except SchedulerCrash:
+        except INTERRUPTS:
             pass
         crash_obs = observe(sim, calls)
-        rec = dict(k=k, ref=ref_obs, crash=crash_obs)
+        rec = dict(k=k, ref=ref_obs, crash=crash_obs, raised=EXC_KINDS[exc_kind(h, k)].__name__)
         # dump at the interruption point
         nodes, addr = graph_of(sim)
         registry = sim._to_registry()[0]
@@ -515,7 +554,19 @@ def run_history(h):
         try:
             sim2 = Simulator.from_json(text)
             calls2 = list(crash_obs["calls"])
-            sim2.update_scheduler(Crashing(make_scheduler(h), None, calls2))
+            mode = attach_mode(h, k)
+            if mode == 1:
+                # the scheduler object that drove the interrupted run (still bound to the old simulator)
+                sched2 = wrap
+                sched2.k, sched2.n, sched2.calls = None, 0, calls2
+            elif mode == 2:
+                # a scheduler that is already registered with another simulator of the same history
+                sched2 = Crashing(make_scheduler(h), None, calls2)
+                build(h, sched2)
+            else:
+                sched2 = Crashing(make_scheduler(h), None, calls2)
+            rec["attach"] = ["fresh", "same-object", "registered-elsewhere"][mode]
+            sim2.update_scheduler(sched2)
             rec["loaded"] = observe(sim2, calls2)
             rec["identity"] = identity_report(sim2)
             nodes2, _ = graph_of(sim2)
@@ -603,7 +654,7 @@ def cases_of_history(h):
         kind = "%s/%s/%s" % (h["sched"][0], "mr%s" % effective_mr(h), special or "plain")
         complete = all(x in rec for x in ("resumed", "loaded", "resumed_loaded"))
         impl = {x: rec.get(x) for x in ("ref", "crash", "resumed", "loaded", "resumed_loaded", "identity",
-                                        "state_diffs", "problem", "ref_num", "resumed_num", "resumed_loaded_num",
+                                        "state_diffs", "problem", "ref_num", "resumed_num", "resumed_loaded_num", "attach", "raised",
                                         "chain_plan", "chain", "pre")}
         if complete:
             coq = ("{| c_events := %s; c_mr := %s; c_k := %d%%nat; c_fuel := %d%%nat;\n   i_ref := %s;\n   i_crash := %s;\n"
@@ -705,10 +756,12 @@ def monitor(case):
     ref = i["ref_num"]
     d = first_diff(ref, i["resumed_num"])
     if d:
-        return "run() again after the scheduler raised at call %d: %s differs from the uninterrupted run" % (case["input"]["k"], d)
+        return "run() again after the scheduler raised %s at call %d: %s differs from the uninterrupted run" % (
+            i.get("raised"), case["input"]["k"], d)
     d = first_diff(ref, i["resumed_loaded_num"])
     if d:
-        return "to_json/from_json/update_scheduler/run() after the scheduler raised at call %d: %s differs from the uninterrupted run" % (case["input"]["k"], d)
+        return ("to_json/from_json/update_scheduler(%s scheduler)/run() after the scheduler raised %s at call %d: %s differs "
+                "from the uninterrupted run" % (i.get("attach"), i.get("raised"), case["input"]["k"], d))
     if i.get("chain") is not None:
         if isinstance(i["chain"], str):
             return "%s (interruptions %s)" % (i["chain"], i["chain_plan"])
